@@ -433,6 +433,7 @@ class C23:
             "thread_safe": config == "threads" or (kind == "cmixin" and rng.chance(0.3)),
             "uptodate": rng.weighted([("fs-like", 5), ("sync", 3), ("none", 1)]),
             "switch_p": rng.choice([0.05, 0.3, 0.7]), "granularity": rng.choice(["line", "line", "opcode"]),
+            "factory": rng.chance(0.3),
             "ext": ".liquid" if rng.chance(0.3) else None,
             "env_globals": {"site": "S"} if rng.chance(0.5) else {},
             "names": names, "realms": realms, "initial": initial, "clients": clients,
@@ -465,6 +466,10 @@ class C23:
         if kind == "cdict":
             return CachingDictLoader(w.dict_realm, **kw) if caching else DictLoader(w.dict_realm)
         if kind == "cfs":
+            if sc.get("factory"):     # the documented factory functions build the same loaders
+                return liquid.make_file_system_loader(root, ext=sc["ext"], auto_reload=sc["auto_reload"],
+                                                      namespace_key=sc["ns_key"],
+                                                      cache_size=sc["capacity"] if caching else 0)
             if caching:
                 return CachingFileSystemLoader(root, ext=sc["ext"], **kw)
             return FileSystemLoader(root, ext=sc["ext"])
@@ -473,6 +478,9 @@ class C23:
                 return CachingSimLoader(w, sc["uptodate"], thread_safe=sc["thread_safe"], **kw)
             return SimLoader(w, sc["uptodate"])
         subs = [FileSystemLoader(root, ext=sc["ext"]), SimLoader(w, sc["uptodate"]), DictLoader(w.dict_realm)]
+        if sc.get("factory"):
+            return liquid.make_choice_loader(subs, auto_reload=sc["auto_reload"], namespace_key=sc["ns_key"],
+                                             cache_size=sc["capacity"] if caching else 0)
         return CachingChoiceLoader(subs, **kw) if caching else ChoiceLoader(subs)
 
     # -- store mutation (editor) ---------------------------------------------------
@@ -1108,6 +1116,8 @@ class C23:
             yield {**sc, "lat": {**sc["lat"], "zero_p": 1.0}}
         if sc["thread_safe"]:
             yield {**sc, "thread_safe": False}
+        if sc.get("factory"):
+            yield {**sc, "factory": False}
         if sc["env_globals"]:
             yield {**sc, "env_globals": {}}
         if sc["ext"]:
